@@ -76,12 +76,12 @@ enum Code {
   SET_SCALAR, TO_ARRAY, TO_OBJECT, ADD_SCALAR, ADD_ARRAY, ADD_OBJECT, SET_INDEX, SET_KEY, SET_KEY2,
   REMOVE_INDEX, REMOVE_KEY, CLEAR_VALUE, SET_VARIANT, ADD_VARIANT, ARRAY_SET, OBJECT_SET,
   DOC_CLEAR, DOC_COPY_ASSIGN, DOC_MOVE_ASSIGN, DOC_SWAP, DOC_SET_DOC, DOC_FROM_VARIANT, SHRINK,
-  DESERIALIZE, HANDLE_TAKE, NCODES
+  DESERIALIZE, HANDLE_TAKE, COPY_ARRAY, NCODES
 };
 static const char* kCodeName[] = {"set", "toArray", "toObject", "add", "addArray", "addObject", "setIndex", "setKey",
                                   "setKey2", "removeIndex", "removeKey", "clearValue", "setVariant", "addVariant",
                                   "arraySet", "objectSet", "docClear", "docCopyAssign", "docMoveAssign", "docSwap",
-                                  "docSetDoc", "docFromVariant", "shrinkToFit", "deserialize", "handle"};
+                                  "docSetDoc", "docFromVariant", "shrinkToFit", "deserialize", "handle", "copyArray"};
 
 struct Op {
   Code code = SET_SCALAR;
@@ -172,6 +172,7 @@ inline std::string opText(const Op& o) {
     case SHRINK: return d + ".shrinkToFit()";
     case DESERIALIZE: return "deserializeJson(" + p + "," + kTexts[o.a] + ")";
     case HANDLE_TAKE: return "R" + std::to_string(o.a) + "=" + p;
+    case COPY_ARRAY: return std::string("copyArray(") + (o.b == 2 ? "int[2][2]{{1,2},{3,4}}" : "int[3]{11,22,33}") + "," + (o.b == 1 ? d : p) + ")";
     default: return "?";
   }
 }
@@ -482,6 +483,28 @@ inline Expect modelApply(World& W, const Op& o) {
       }
       break;
     }
+    case COPY_ARRAY: {
+      MValue one = MValue::array();
+      if (o.b == 2) {
+        MValue r1 = MValue::array(), r2 = MValue::array();
+        r1.a = {MValue::integer(1), MValue::integer(2)};
+        r2.a = {MValue::integer(3), MValue::integer(4)};
+        one.a = {r1, r2};
+      } else {
+        one.a = {MValue::integer(11), MValue::integer(22), MValue::integer(33)};
+      }
+      if (o.b == 1) {  // into the JsonDocument: to<JsonArray>() first
+        killDoc(W, o.doc);
+        root = one;
+        E.ret = "T";
+        break;
+      }
+      if (!t || (t->kind != MValue::Null && t->kind != MValue::Arr)) { E.ret = "F"; E.mutates = false; break; }
+      if (t->kind == MValue::Null) *t = MValue::array();
+      for (auto& e : one.a) t->a.push_back(e);
+      E.ret = "T";
+      break;
+    }
     case HANDLE_TAKE:
       W.H[o.a].alive = t != nullptr;
       W.H[o.a].doc = o.doc;
@@ -756,6 +779,13 @@ inline std::string realApply(Real& R, const Op& o) {
       }
       return e.c_str();
     }
+    case COPY_ARRAY: {
+      int one[3] = {11, 22, 33};
+      int two[2][2] = {{1, 2}, {3, 4}};
+      if (o.b == 1) return B(copyArray(one, d));
+      if (o.b == 2) return B(copyArray(two, resolve(d, o.path)));
+      return B(copyArray(one, resolve(d, o.path)));
+    }
     case HANDLE_TAKE:
       R.RH[o.a] = resolve(d, o.path);
       return "";
@@ -836,6 +866,10 @@ inline void enabledOps(const World& W, const Alphabet& AB, std::vector<Op>& out)
       }
       o.a = 0;
       o.code = CLEAR_VALUE; out.push_back(o);
+      o.code = COPY_ARRAY; o.b = 0; out.push_back(o);
+      if (AB.full || p.empty()) { o.b = 2; out.push_back(o); }
+      if (p.empty()) { o.b = 1; out.push_back(o); }
+      o.b = 0;
       // copies from every path of both documents
       for (int d2 = 0; d2 < 2; d2++) {
         for (auto& p2 : paths[d2]) {
